@@ -158,6 +158,27 @@ CLAIMED = {
                 "switch is checked at enumerated z-scores on both sides.",
         "ref": "DESIGN.md section 3 C18",
     },
+    "C12": {
+        "technique": "KdeExact.tla: exact Gaussian-mixture density and cdf (exp/erf atoms at rational arguments) enumerated by TLC; real "
+                     "GaussianKDE compared inside an explicit one-sided truncation band; affine-covariance traces validated by KdeCovTrace.tla",
+        "text": "Every sample of 3-8 points over 4 (quick) / 5 (thorough) levels with ties and gaps, bandwidths 2^k/sqrt(2) (and bandwidths far "
+                "above the data range), on a half-integer grid from three cut-offs left to three cut-offs right of the data: density "
+                "non-negative with 0 <= exact - got <= 2.5e-3 kernel peaks, cdf within 5e-4, non-decreasing from 0 to 1, scalar = array, "
+                "order independent; scale/shift covariance for user, rule-of-thumb and cross-validated bandwidths on seeded samples.",
+        "note": "Trusted: TLC, math.exp/erf. The band constants follow from the observed cut-off (4 bandwidths) and region width (< 1 bandwidth).",
+        "ref": "DESIGN.md section 3 C12",
+    },
+    "C19": {
+        "technique": "KdeExact.tla closed-form mixture moments, mass and end densities (KdeInterval.tla) vs GaussianKDE.moments / interval / mode "
+                     "under affine maps; GaussianKDE clauses only",
+        "text": "Light-tailed integer-mean histograms (hundreds to thousands of points by replication) x bandwidths x affine maps with scales 2^-20..2^20 "
+                "and locations up to 1e6 standard deviations: mean / variance / skewness / kurtosis against the closed form in units of the data's "
+                "scale (only where < 2e-4 of the mass lies outside the estimator's integration range), covariance between runs, mode maximality; "
+                "interval(f) ends are fed back to the reference, which prints mass and end densities.",
+        "note": "UnimodalPdf clauses are NOT decided (quadrature/optimiser accuracy of a fitted curve; nothing exactly computable). Interval tolerances "
+                "(1e-2 mass, 5e-2 of the peak in end density) are the interval search's own stopping tolerance.",
+        "ref": "DESIGN.md sections 3 C19 and 5",
+    },
     "C13": {
         "technique": "Hdi.tla: declarative Good predicate + algorithm model, AlgorithmIsGood model-checked by TLC over every small sample "
                      "and fraction; every enumerated case run through the real sample_hdi in 8 call variants and judged by HdiTrace.tla",
